@@ -53,8 +53,15 @@ def build(kinds, top_level=False, detached=False, nsmode=False):
     return soup, holder
 
 
-def anb_text(a, b):
-    return f'{a}n{"+" if b >= 0 else "-"}{abs(b)}'
+SEPS = ['', ' ', '  ', '\n', '/**/', ' /* x */ ', '/*+*/', '\t/**/']
+
+
+def anb_text(a, b, r=None):
+    """`An+B`; with a generator, whitespace and comments are put around the sign between the two terms (the only
+    place the micro-syntax allows them) and the variable is written in either case."""
+    if r is None or r.random() < 0.6:
+        return f'{a}n{"+" if b >= 0 else "-"}{abs(b)}'
+    return f'{a}{r.choice("nN")}{r.choice(SEPS)}{"+" if b >= 0 else "-"}{r.choice(SEPS)}{abs(b)}'
 
 
 def oracle(els, e, a, b, last, of_type, of_s):
@@ -107,9 +114,9 @@ def run(chk):
         for a, b in abs_:
             name, last, of_type = rng.choice(NAMES) if quick else NAMES[(a + b) % 4]
             of_s = (not of_type) and rng.random() < 0.2
-            sel = f'{name}({anb_text(a, b)}{" of .s" if of_s else ""})'
+            sel = f'{name}({anb_text(a, b, rng)}{" of .s" if of_s else ""})'
             if nsmode:
-                sel = ('*|*' if not of_s else '*|*') + (f'{name}({anb_text(a, b)}{" of *|*.s" if of_s else ""})')
+                sel = '*|*' + (f'{name}({anb_text(a, b, rng)}{" of *|*.s" if of_s else ""})')
             got = sv.select(sel, holder, namespaces=NSMAP if nsmode else None)
             gotset = {id(e) for e in got}
             exp = [e for e in els if oracle(els, e, a, b, last, of_type, of_s)]
